@@ -221,7 +221,7 @@ func runC12(c *Ctx) {
 	he := gd.Func("internal/content", "handleErr")
 	okMap := false
 	for _, in := range instrsOf(he) {
-		if ta, ok := in.(*ssa.TypeAssert); ok && strings.HasSuffix(ta.AssertedType.String(), "contentError") && ta.CommaOk {
+		if ta, ok := in.(*ssa.TypeAssert); ok && strings.HasSuffix(namedType(ta.AssertedType), "contentError") && ta.CommaOk {
 			okMap = true
 		}
 	}
